@@ -227,6 +227,19 @@ def judge(ctx, sid, s, model, st, count):
         return bad("newclient-ipv6-dc", "the DC table NewClient builds from help.getConfig holds, for the IPv6 option {id 14, 2001:db8::e, port 443}, "
                    "an address that cannot be taken apart into that host and port again: a PHONE_MIGRATE_14 could not be followed",
                    "[2001:db8::e]:443", str(o.get("newclient-ipv6-entry")))
+    if sp["setup"] == "newclient" and o.get("newclient-config"):
+        mc = model.get("c" + sid)
+        if not mc:
+            return bad("model", "the model gives no DC table for the config of scenario %s" % sid, "a table", "none", no_input=True)
+        held = dict(kv.split("=", 1) for kv in s["dcs"].split(",") if "=" in kv)
+        for kv in ([] if mc[0] == "-" else mc[0].split(",")):
+            k, want = kv.split("=", 1)
+            got = held.get(k, "-")
+            if got != want:
+                unhex = lambda h: "absent" if h == "-" else bytes.fromhex(h).decode("utf-8", "replace")
+                return bad("newclient-dc-table", "the DC table NewClient builds from help.getConfig (options %s) holds %s for DC %s; the last non-CDN "
+                           "option for that id gives %s (Misc/DcConfig.v config_table)" % (o.get("newclient-config"), unhex(got), k, unhex(want)),
+                           unhex(want), unhex(got))
     mm = model.get("m" + sid)
     me = model.get("e" + sid)
     if not mm or mm[0] in ("P", "ERR") or not me or me[0] != "ok":
@@ -356,6 +369,8 @@ def stage(ctx):
                 continue
             f.write("M\tm%s\t%s\t%s\t%s\n" % (sid, s["dcs"], s["code"], s["text"]))
             f.write("E\te%s\t%s\t%s\n" % (sid, s["code"], s["text"]))
+            if s["obs"].get("newclient-config"):
+                f.write("C\tc%s\t%s\n" % (sid, s["obs"]["newclient-config"]))   # Misc/DcConfig.v: the table of that config
     mo = work + "/model_out.txt"
     C.run_model("C17", mc, mo)
     model = {}
@@ -398,6 +413,8 @@ def stage(ctx):
                         f.write(l + "\n")
                     f.write("M\tm%s\t%s\t%s\t%s\n" % (sid, again["dcs"], again["code"], again["text"]))
                     f.write("E\te%s\t%s\t%s\n" % (sid, again["code"], again["text"]))
+                    if again["obs"].get("newclient-config"):
+                        f.write("C\tc%s\t%s\n" % (sid, again["obs"]["newclient-config"]))
                 C.run_model("C17", mc2, mo2)
                 for fl in C.read_tsv(mo2):
                     model2[fl[0]] = fl[1:]
